@@ -1,0 +1,43 @@
+//! Verification-only seams (cargo feature `verif-hooks`). Nothing in here is compiled into a
+//! normal build. The seams let an external harness own the two sources of nondeterminism of
+//! this crate (the wall clock and the contents of `/etc/localtime`) and reach the private
+//! TZif reader with caller-supplied bytes. All state is thread-local, so explorer threads
+//! do not share a clock.
+
+use crate::local::timezone::TimeZone;
+use std::{cell::RefCell, time::Duration};
+
+thread_local! {
+    static PINNED_NOW: RefCell<Option<Duration>> = RefCell::new(None);
+    static LOCALTIME_BYTES: RefCell<Option<Vec<u8>>> = RefCell::new(None);
+}
+
+/// Pins (or with `None` releases) the duration since the Unix epoch that `DateTime::now()`
+/// observes on the calling thread.
+pub fn set_now(unix: Option<Duration>) {
+    PINNED_NOW.with(|now| *now.borrow_mut() = unix);
+}
+
+pub(crate) fn pinned_now() -> Option<Duration> {
+    PINNED_NOW.with(|now| *now.borrow())
+}
+
+/// Replaces (or with `None` restores) what `Offset::Local` reads instead of `/etc/localtime`
+/// on the calling thread.
+pub fn set_localtime_bytes(bytes: Option<Vec<u8>>) {
+    LOCALTIME_BYTES.with(|b| *b.borrow_mut() = bytes);
+}
+
+pub(crate) fn localtime_bytes() -> Option<Vec<u8>> {
+    LOCALTIME_BYTES.with(|b| b.borrow().clone())
+}
+
+/// Parses `bytes` as a TZif file with the crate's reader and resolves the UTC offset for each
+/// of `timestamps`. A parse error is returned as its display text.
+pub fn tzif_offsets(bytes: &[u8], timestamps: &[i64]) -> Result<Vec<i32>, String> {
+    let time_zone = TimeZone::from_tzif(bytes).map_err(|e| e.to_string())?;
+    Ok(timestamps
+        .iter()
+        .map(|&timestamp| time_zone.to_local_time_type(timestamp).utoff)
+        .collect())
+}
